@@ -49,6 +49,8 @@ structure Node where
   hosts : List Host := []            -- hm.Indexes / Hosts / moreHosts
   relays : List (Nat × Nat) := []    -- hm.Relays : relay index ↦ owning hostinfo id
   pending : List Addr := []          -- f.Handshake(target) calls (handshake manager pending set)
+  useRelaysCfg : Bool := true        -- relay.use_relays (effective value: `useRelaysCfg && !amRelay`)
+  relayUsed : List Nat := []         -- connectionManager.relayUsed
   deriving Repr, Inhabited
 
 /-- A control message after `Unmarshal` (fields of `NebulaControl`). -/
@@ -66,6 +68,7 @@ structure Ctl where
 inductive Out where
   | send (hostId : Nat) (m : Ctl)      -- f.SendMessageToHostInfo(header.Control, 0, hostinfo, msg)
   | handshake (a : Addr)               -- f.Handshake(target)
+  | via (hostId outIdx : Nat)          -- f.SendVia(relayHostInfo, relay, stage0, …): outer header index = relay.RemoteIndex
   deriving DecidableEq, Repr
 
 -- ---- RelayState
@@ -251,11 +254,6 @@ def handleControl (n : Node) (c : Nat) (hid : Nat) (m : Ctl) : Res :=
 
 -- ---- tunnel churn (hostmap.go)
 
-/-- handshake completed: `unlockedAddHostInfo` of a fresh hostinfo (becomes primary for its addresses). -/
-def tunnelUp (n : Node) (id remoteId : Nat) (addrs : List Addr) : Node :=
-  if (n.findHost id).isSome || addrs.isEmpty then n
-  else { n with hosts := { id := id, remoteId := remoteId, vpnAddrs := addrs } :: n.hosts }
-
 /-- the `UpdateRelayForByIpState(hi.vpnAddrs[0], Disestablished)` loops of
 `unlockedDisestablishVpnAddrRelayFor(hi)`. -/
 def disestablish (n : Node) (hi : Host) : Node :=
@@ -275,6 +273,112 @@ def deleteHost (n : Node) (hid : Nat) : Node :=
     let dead := (n.hosts.filter (fun h => h.id == hid)).flatMap (fun h => h.recs.map (·.localIndex))
     let n1 : Node := { n with hosts := rest, relays := n.relays.filter (fun p => !(dead.contains p.1)) }
     if hi.vpnAddrs.all (fun a => !(rest.any (fun h => h.vpnAddrs.contains a))) then disestablish n1 hi else n1
+
+/-- the per-address cap of `unlockedInnerAddHostInfo`: when an address is held by more than
+`MaxHostInfosPerVpnIp` hostinfos the oldest one is fully retired. -/
+def evictFor (n : Node) (a : Addr) : Node :=
+  if (n.hostsFor a).length > nebula_MaxHostInfosPerVpnIp then
+    match (n.hostsFor a).getLast? with
+    | some old => deleteHost n old.id
+    | none => n
+  else n
+
+/-- handshake completed: `unlockedAddHostInfo` of a fresh hostinfo (becomes primary for its addresses;
+`relayed` = the handshake came through a relay, so the hostinfo has no underlay remote and lists the relay). -/
+def tunnelUp (n : Node) (id remoteId : Nat) (addrs : List Addr) (viaRelay : Option Addr := none) : Node :=
+  if (n.findHost id).isSome || addrs.isEmpty then n
+  else
+    let h : Host := { id := id, remoteId := remoteId, vpnAddrs := addrs, remoteValid := viaRelay.isNone,
+                      relayIps := viaRelay.toList }
+    addrs.foldl evictFor { n with hosts := h :: n.hosts }
+
+/-- `sendHandshakeResponse` / handshake completion through a relay (handshake_manager.go): the relay record
+the handshake arrived on is marked Established again (`UpdateRelayForByIdxState(via.relay.LocalIndex, Established)`). -/
+def setStateIdxF (i : Nat) (st : Nat) (r : Relay) : Relay :=
+  if r.localIndex == i then { r with state := st } else r
+
+def relayHandshakeSeen (n : Node) (relayHostId relayIdx : Nat) : Node :=
+  n.modHost relayHostId (·.mapRecs (setStateIdxF relayIdx nebula_Established))
+
+-- ---- initiator side: relay_manager.go StartRelays
+
+/-- send (or re-send) the CreateRelayRequest for the Terminal record `idx` towards `vpnIp`. -/
+def sendRelayRequest (n : Node) (c : Nat) (hid : Nat) (v1 : Bool) (idx : Nat) (vpnIp : Addr) : Res :=
+  if v1 && (!is4 (n.myAddrs.headD 0) || !is4 vpnIp) then (n, c, [])
+  else (n, c, [Out.send hid (mkMsg v1 nebula_NebulaControl_CreateRelayRequest idx 0 (n.myAddrs.headD 0) vpnIp)])
+
+/-- one iteration of the `for _, relay := range relays` loop. -/
+def startRelayOne (n : Node) (c : Nat) (vpnIp : Addr) (v1 : Bool) (relay : Addr) : Res :=
+  if relay == vpnIp then (n, c, [])
+  else if n.myAddrs.contains relay then (n, c, [])
+  else match n.queryVpnAddr relay with
+  | none => ({ n with pending := if n.pending.contains relay then n.pending else n.pending ++ [relay] }, c, [Out.handshake relay])
+  | some rh =>
+    if !rh.remoteValid then (n, c, [Out.handshake relay])   -- f.Handshake: a tunnel exists, nothing is started
+    else match rh.byAddr vpnIp with
+    | none =>
+      match addRelay n c rh.id vpnIp 0 nebula_TerminalType nebula_Requested with
+      | (none, c') => (n, c', [])
+      | (some (n1, idx), c') => sendRelayRequest n1 c' rh.id v1 idx vpnIp
+    | some ex =>
+      if ex.state == nebula_Established then
+        ({ n with relayUsed := if n.relayUsed.contains ex.localIndex then n.relayUsed else n.relayUsed ++ [ex.localIndex] }, c,
+         [Out.via rh.id ex.remoteIndex])
+      else if ex.state == nebula_Disestablished then
+        sendRelayRequest (n.modHost rh.id (·.mapRecs (setStateF vpnIp nebula_Requested))) c rh.id v1 ex.localIndex vpnIp
+      else if ex.state == nebula_Requested then sendRelayRequest n c rh.id v1 ex.localIndex vpnIp
+      else (n, c, [])
+
+def startRelaysLoop (vpnIp : Addr) (v1 : Bool) : List Addr → Node → Nat → List Out → Res
+  | [], n, c, acc => (n, c, acc)
+  | r :: rs, n, c, acc =>
+    match startRelayOne n c vpnIp v1 r with
+    | (n1, c1, o) => startRelaysLoop vpnIp v1 rs n1 c1 (acc ++ o)
+
+/-- `StartRelays(f, vpnIp, hh, stage0)`. -/
+def startRelays (n : Node) (c : Nat) (vpnIp : Addr) (v1 : Bool) (relays : List Addr) : Res :=
+  if !(n.useRelaysCfg && !n.amRelay) || relays.isEmpty then (n, c, [])
+  else startRelaysLoop vpnIp v1 relays n c []
+
+-- ---- connection_manager.go migrateRelayUsed (as fixed: Forwarding relays are skipped once am_relay is off)
+
+/-- the CreateRelayRequest `migrateRelayUsed` sends to the new hostinfo for the (re-)created record. -/
+def migrateSend (n : Node) (c : Nat) (newId : Nat) (v1 : Bool) (type idx : Nat) (peer new0 : Addr) : Res :=
+  if type == nebula_TerminalType then
+    (if v1 && (!is4 (n.myAddrs.headD 0) || !is4 peer) then (n, c, [])
+     else (n, c, [Out.send newId (mkMsg v1 nebula_NebulaControl_CreateRelayRequest idx 0 (n.myAddrs.headD 0) peer)]))
+  else
+    (if v1 && (!is4 peer || !is4 new0) then (n, c, [])
+     else (n, c, [Out.send newId (mkMsg v1 nebula_NebulaControl_CreateRelayRequest idx 0 peer new0)]))
+
+/-- one iteration of the loop over the old hostinfo's records. -/
+def migrateOne (n : Node) (c : Nat) (newId : Nat) (v1 : Bool) (r : Relay) : Res :=
+  if r.type == nebula_ForwardingType && !n.amRelay then (n, c, [])
+  else match n.findHost newId with
+  | none => (n, c, [])
+  | some nh =>
+    match nh.byAddr r.peerAddr with
+    | some ex =>
+      if ex.state == nebula_Requested then migrateSend n c newId v1 r.type ex.localIndex ex.peerAddr (nh.vpnAddrs.headD 0)
+      else (n, c, [])
+    | none =>
+      if !n.relayUsed.contains r.localIndex then (n, c, [])
+      else match addRelay n c newId r.peerAddr 0 r.type nebula_Requested with
+        | (none, c') => (n, c', [])
+        | (some (n1, idx), c') => migrateSend n1 c' newId v1 r.type idx r.peerAddr (nh.vpnAddrs.headD 0)
+
+def migrateLoop (newId : Nat) (v1 : Bool) : List Relay → Node → Nat → List Out → Res
+  | [], n, c, acc => (n, c, acc)
+  | r :: rs, n, c, acc =>
+    match migrateOne n c newId v1 r with
+    | (n1, c1, o) => migrateLoop newId v1 rs n1 c1 (acc ++ o)
+
+/-- `migrateRelayUsed(oldhostinfo, newhostinfo)`. (Go iterates a map: with more than one record to act on
+the order — hence the index allocation order — is unspecified; the model uses list order.) -/
+def migrateRelayUsed (n : Node) (c : Nat) (oldId newId : Nat) (v1 : Bool) : Res :=
+  match n.findHost oldId with
+  | none => (n, c, [])
+  | some oh => migrateLoop newId v1 oh.recs n c []
 
 -- ---- forwarding decision (outside.go handleOutsideRelayPacket, after VerifyRelay succeeded)
 
@@ -320,20 +424,30 @@ def relayPacket (n : Node) (idx : Nat) : Fwd :=
 -- ---- histories
 
 inductive Op where
-  | up (id remoteId : Nat) (addrs : List Addr)
+  | up (id remoteId : Nat) (addrs : List Addr) (viaRelay : Option Addr)
   | down (hid : Nat)
   | ctl (hid : Nat) (m : Ctl)
   | reload (amRelay : Bool)
   | setRemote (hid : Nat) (valid : Bool)
+  | start (vpnIp : Addr) (v1 : Bool) (relays : List Addr)
+  | migrate (oldId newId : Nat) (v1 : Bool)
+  | relayHs (relayHostId relayIdx : Nat)
+  | used (idx : Nat)                         -- connectionManager.RelayUsed(idx)
+  | reloadUse (useRelays : Bool)
   deriving Repr
 
 def step (s : Node × Nat) (op : Op) : Node × Nat :=
   match op with
-  | .up id rid addrs => (tunnelUp s.1 id rid addrs, s.2)
+  | .up id rid addrs via => (tunnelUp s.1 id rid addrs via, s.2)
   | .down hid => (deleteHost s.1 hid, s.2)
   | .ctl hid m => let r := handleControl s.1 s.2 hid m; (r.1, r.2.1)
   | .reload b => ({ s.1 with amRelay := b }, s.2)
   | .setRemote hid v => (s.1.modHost hid (fun h => { h with remoteValid := v }), s.2)
+  | .start vpnIp v1 relays => let r := startRelays s.1 s.2 vpnIp v1 relays; (r.1, r.2.1)
+  | .migrate o nw v1 => let r := migrateRelayUsed s.1 s.2 o nw v1; (r.1, r.2.1)
+  | .relayHs h i => (relayHandshakeSeen s.1 h i, s.2)
+  | .used i => ({ s.1 with relayUsed := i :: s.1.relayUsed }, s.2)
+  | .reloadUse b => ({ s.1 with useRelaysCfg := b }, s.2)
 
 def run (s : Node × Nat) (ops : List Op) : Node × Nat := ops.foldl step s
 
